@@ -413,87 +413,76 @@ func r13Pubsub(c *core.Ctx, p *load.Program, sh *tarShape) {
 	}
 }
 
-// r13OneSection: the last read of the 'visited'-like bool map that decides and the following write to the other map
-// happen without an Unlock in between (same block chain), i.e. in one critical section.
+// r13OneSection: every write to the subscriber table (slice-valued map) happens in a critical section of the table's
+// mutex that also reads or writes the visited table (bool-valued map): check-and-register / mark-and-take-over are atomic.
+// In Emit, additionally, subscriber callbacks run with no lock held.
 func r13OneSection(c *core.Ctx, p *load.Program, fn *ssa.Function, recv *ssa.Parameter, muAP string, maps []string) {
 	key := fname(fn) + "|check-and-register-atomic"
-	// walk every path: between a map write and the most recent map read of another map, no Unlock of mu
+	elemKind := func(v ssa.Value) string {
+		if !isFieldMap(v, recv) {
+			return ""
+		}
+		mt, ok := v.Type().Underlying().(*types.Map)
+		if !ok {
+			return ""
+		}
+		switch e := mt.Elem().Underlying().(type) {
+		case *types.Basic:
+			if e.Kind() == types.Bool {
+				return "visited"
+			}
+		case *types.Slice:
+			return "subs"
+		}
+		return ""
+	}
 	bad := ""
+	writes := 0
 	ssax.EnumPaths(fn, fn.Blocks[0], 0, nil, ssax.PathHooks{
 		Instr: func(s *ssax.PathState, ins ssa.Instruction) {
 			if cl, ok := ins.(*ssa.Call); ok {
 				if op, ap := ssax.MutexOp(cl); ap == muAP {
 					switch op {
-					case ssax.OpLock:
+					case ssax.OpLock, ssax.OpRLock:
 						s.Counts["section"]++
-						s.Counts["w"] = 1
-					case ssax.OpRLock:
-						s.Counts["section"]++
-						s.Counts["w"] = 0
+						s.Counts["visitedTouched"] = 0
+					case ssax.OpUnlock, ssax.OpRUnlock:
+						s.Counts["visitedTouched"] = 0
 					}
 				}
 			}
 			switch x := ins.(type) {
 			case *ssa.Lookup:
-				if isFieldMap(x.X, recv) {
-					s.Counts["lastReadSection"] = s.Counts["section"]
+				if elemKind(x.X) == "visited" {
+					s.Counts["visitedTouched"] = 1
 				}
 			case *ssa.MapUpdate:
-				if isFieldMap(x.Map, recv) {
-					if s.Counts["lastReadSection"] != 0 && s.Counts["lastReadSection"] != s.Counts["section"] && s.Counts["readInThis"] == 0 {
-						// a write decided by a read made in an earlier critical section: must be re-checked in this one
+				switch elemKind(x.Map) {
+				case "visited":
+					s.Counts["visitedTouched"] = 1
+				case "subs":
+					writes++
+					if s.Counts["visitedTouched"] == 0 && bad == "" {
 						bad = p.Pos(ins.Pos())
 					}
 				}
 			}
-			if lk, ok := ins.(*ssa.Lookup); ok && isFieldMap(lk.X, recv) && s.Counts["w"] == 1 {
-				s.Counts["readInThis"] = 1
-			}
-			if cl, ok := ins.(*ssa.Call); ok {
-				if op, ap := ssax.MutexOp(cl); ap == muAP && (op == ssax.OpUnlock || op == ssax.OpRUnlock) {
-					s.Counts["readInThis"] = 0
-				}
-			}
 		},
 	})
-	// Wait: the visited test that decides to subscribe must be inside the write-locked section of the append
-	if fn.Name() == "Wait" {
-		c.Check(bad == "", "R13.5", key, p.Pos(fn.Pos()), "the visited test and the subscription share one write-locked section",
-			fmt.Sprintf("%s: the subscription at %s is decided by a test of the visited table made in an earlier critical section: an Emit between the two is lost and the waiter sleeps until the stream ends", fname(fn), bad))
+	if writes == 0 {
 		return
 	}
-	// Emit: the write of visited and the take-over of subscribers are in one section, callbacks after the unlock
-	var firstWrite, lastWrite, unlock ssa.Instruction
-	var callbacks []ssa.Instruction
+	callbacksLocked := false
+	ls := ssax.Locksets(fn, false, nil)
 	ssax.Instrs(fn, func(ins ssa.Instruction) {
-		switch x := ins.(type) {
-		case *ssa.MapUpdate:
-			if isFieldMap(x.Map, recv) {
-				if firstWrite == nil {
-					firstWrite = ins
-				}
-				lastWrite = ins
-			}
-		case *ssa.Call:
-			if op, ap := ssax.MutexOp(x); ap == muAP && op == ssax.OpUnlock && lastWrite != nil && unlock == nil {
-				unlock = ins
-			}
-			if !x.Call.IsInvoke() && ssax.StaticCallee(x) == nil {
-				if _, isB := x.Call.Value.(*ssa.Builtin); !isB {
-					callbacks = append(callbacks, ins)
-				}
+		if x, ok := ins.(*ssa.Call); ok && !x.Call.IsInvoke() && ssax.StaticCallee(x) == nil {
+			if _, isB := x.Call.Value.(*ssa.Builtin); !isB && len(ls[ins]) > 0 {
+				callbacksLocked = true
 			}
 		}
 	})
-	ok := firstWrite != nil && unlock != nil && firstWrite.Block() == lastWrite.Block()
-	ls := ssax.Locksets(fn, false, nil)
-	for _, cb := range callbacks {
-		if len(ls[cb]) > 0 {
-			ok = false
-		}
-	}
-	c.Check(ok, "R13.5", key, p.Pos(fn.Pos()), "visited is set and the subscriber list taken over in one write-locked section; callbacks run after it",
-		fmt.Sprintf("%s: marking the key visited and taking over its subscribers are not one critical section, or subscriber callbacks run while the table is locked", fname(fn)))
+	c.Check(bad == "" && !callbacksLocked, "R13.5", key, p.Pos(fn.Pos()), "subscriber table written only in a critical section that also consults/marks the visited table; callbacks run unlocked",
+		fmt.Sprintf("%s: the subscriber table is written at %s in a critical section that neither tests nor marks the visited table (callbacks-under-lock=%v): an announcement between the test and the registration is lost and the waiter sleeps until the stream ends", fname(fn), bad, callbacksLocked))
 }
 
 func isFieldMap(v ssa.Value, recv *ssa.Parameter) bool {
